@@ -9,10 +9,17 @@
   them out; default / "canonical": the stable-sort queue of `EventCore.lean`.
   Optional field "steps": [<sched>, …]: instead of `run()`, one `Simulator.step(sched)` call per
   entry (`AcnModel/SimStep.lean`); the answer carries "step_results": [[err|null, done|null, iter]].
+  Optional field "assembly": {"ctor": [<event>…], "stages": [[<event>…], …]} (`AcnModel/SimAssemble.lean`):
+  the simulator is constructed on a queue holding the `ctor` events only; then, per stage, the stage's events
+  are added to the queue and `run()` is called (an empty stage = `run()` called again).  <event> =
+  [ts, "Plugin"|"Recompute", session id | tag].  Honours "queue" (default canonical).
+  Optional field "prior": a complete request of its own (an earlier simulation whose queue / network /
+  scheduler objects the caller re-uses): it is answered independently, under "prior" of the answer.
 -/
 import AcnModel.WireSim
 import AcnModel.SimQ
 import AcnModel.SimStep
+import AcnModel.SimAssemble
 open Lean Acn Acn.Wire Acn.EventCore Acn.Sim
 
 def jStepResult (r : Except StepErr Bool × Nat) : Json :=
@@ -26,10 +33,33 @@ def handleSteps (cfg : Sim.Cfg Float) (sj : Json) : Except String Json := do
   pure (Json.mkObj ([("step_results", jList jStepResult r.2), ("err", Json.null),
                      ("fuel_exhausted", jB false)] ++ jSimState cfg r.1))
 
-def handle (j : Json) : Except String Json := do
+def parseEventIn (v : Json) : Except String Event := do
+  match ← asArr v with
+  | [t, k, g] =>
+    let kind ← k.getStr?
+    let kd ← if kind == EvKind.plugin.name then pure EvKind.plugin
+      else if kind == EvKind.recompute.name then pure EvKind.recompute
+      else if kind == EvKind.unplug.name then pure EvKind.unplug
+      else throw s!"unknown event kind {kind}"
+    pure { ts := ← t.getInt?, kind := kd, sess := ← g.getStr? }
+  | _ => throw "event must be [ts, kind, tag]"
+
+def handleAssembly (cfg : Sim.Cfg Float) (j aj : Json) : Except String Json := do
+  let sched ← parseSched (← j.getObjVal? "sched")
+  let ops := match j.getObjVal? "queue" with
+    | .ok (Json.str "heap") => heapQ
+    | _ => canonQ
+  let ctor ← (← getArr aj "ctor").mapM parseEventIn
+  let stages ← (← getArr aj "stages").mapM fun b => do (← asArr b).mapM parseEventIn
+  pure (jResult cfg (Sim.runStages ops cfg sched (fuelFor cfg.core) stages (Sim.initOn ops cfg ctor)))
+
+def handleOne (j : Json) : Except String Json := do
   let cfg ← parseSimCfg j
   match j.getObjVal? "steps" with
   | .ok sj => handleSteps cfg sj
+  | .error _ =>
+  match j.getObjVal? "assembly" with
+  | .ok aj => handleAssembly cfg j aj
   | .error _ =>
   let sched ← parseSched (← j.getObjVal? "sched")
   let fuel := fuelFor cfg.core
@@ -48,5 +78,11 @@ def handle (j : Json) : Except String Json := do
       let sched2 ← parseSched rj
       let r2 := runIt sched2 r.1
       pure ((jResult cfg r2).setObjVal! "first" (jResult cfg r))
+
+def handle (j : Json) : Except String Json := do
+  let r ← handleOne j
+  match j.getObjVal? "prior" with
+  | .ok pj => pure (r.setObjVal! "prior" (← handleOne pj))
+  | .error _ => pure r
 
 def main : IO Unit := runDriver handle
